@@ -65,7 +65,7 @@ def main():
            "   named); G = guarded by an explicit check just before; I = internal invariant of the call",
            "   order; L = local/library fact independent of peer data; S = start-up / constant only;",
            "   R = resource exhaustion (recorded finding). *)",
-           "From Coq Require Import String List.", "Import ListNotations.", "Open Scope string_scope.", "",
+           "From Coq Require Import String List.", "Import ListNotations.", "Local Open Scope string_scope.", "",
            "Definition expected : list (string * string) := ["]
     rows = []
     for s in sites:
